@@ -108,7 +108,6 @@ func execC34(t *testing.T, c C34Case) *Verdict {
 	for _, p := range c.Panics {
 		w.panicsLeft[p] = 1
 	}
-	anyPanicPlanned := len(c.Panics) > 0
 	var phase2Started bool
 
 	// checkRun validates one returned Run. thrownBefore is what had been thrown
@@ -150,27 +149,12 @@ func execC34(t *testing.T, c C34Case) *Verdict {
 			w.fail(viol("C34/run-failed-without-fault", "run %d: no query of this run panicked and the context was not cancelled, but Run returned %v", rr.tag, rr.err))
 			return
 		}
-		if len(w.thrown) > 0 || anyPanicPlanned && w.concurrentPanicPossible {
-			// Around an earlier or concurrent panic a query may legitimately carry
-			// a propagated cancellation error. What is never acceptable is a
-			// result without an error that is not the right value.
-			cache := map[int]int64{}
-			for i, r := range rr.roots {
-				res := rr.results[i]
-				if res.Fatal != nil {
-					continue
-				}
-				if closureHasCycle(w, r) {
-					w.fail(viol("C34/cycle-not-reported", "run %d: the dependencies of query %d contain a cycle but it succeeded with value %d", rr.tag, r, res.Value))
-					return
-				}
-				if want := w.modelValue(r, cache); res.Value != want {
-					w.fail(viol("C34/wrong-value-without-error", "run %d (around a panic in another query): query %d returned %d with no error, a fresh computation gives %d", rr.tag, r, res.Value, want))
-					return
-				}
-			}
-			sim.S().Probe("run:ok-after-panic")
-			return
+		// A Run that returns without an error is judged in full even when another
+		// query panicked earlier or concurrently (in another Run): what a panicking
+		// Run leaves behind is never memoised, so this Run computed, or found
+		// memoised, proper results.
+		if len(w.thrown) > 0 {
+			sim.S().Probe("run:judged-after-panic")
 		}
 		cache := map[int]int64{}
 		for i, r := range rr.roots {
